@@ -68,6 +68,9 @@ func (d Exec) Apply(opt *Option, profileRaw string) (string, error) {
 		strings.SplitN(opt.Raw, Keyword, 1)[0], aa.Indentation,
 	)
 	rules = rules.Sort()
+	if len(rules) == 0 {
+		return "", fmt.Errorf("no exec rule to generate for '%s'", strings.TrimSpace(opt.Raw))
+	}
 	new := rules.String()
 	new = new[:len(new)-1]
 	return strings.ReplaceAll(profileRaw, opt.Raw, new), nil
